@@ -15,7 +15,9 @@ RULE = ("streams: ell (every table ellipsoid + default + random set_ab/af/af1; l
         "IsInteger/IsFloat/deg2gon, three parties: real code = model of the scanner = derivative matcher of the documented "
         "grammar with the numeric ranges; plus structured longer strings incl. int and double overflow). distinct = distinct op line; non-trivial = ell: not on the axis; ang: non-zero angle; "
         "brg: d >= 1e-6; lit: accepted by at least one recogniser")
-TRUSTED = ["tools/gen/c18_ellipsoids.py (regex reader of ellipsoids.{h,cpp}; cross-checked enum/id/caption/switch/strcmp views, "
+TRUSTED = ["tools/gen/c18_ellipsoid.py + tools/gen/cfun.py (C++ statement/expression front end; every member function of class "
+           "Ellipsoid regenerated as a Lean definition, proved equal to the hand model; also executed against the C++ by the correspondence)",
+           "tools/gen/c18_ellipsoids.py (regex reader of ellipsoids.{h,cpp}; cross-checked enum/id/caption/switch/strcmp views, "
            "and executed against the C++ on every ellipsoid by the correspondence)",
            "python oracle for printed angle strings (regular expressions per sign mode)"]
 MODELLED = ["libm sin/cos/atan2/sqrt (shared between model execution and C++; theorems use Mathlib's real functions)",
@@ -36,11 +38,13 @@ LEVEL_TEXT = ("Lean 4 theorems over R (Mathlib trig, Complex.arg as atan2) and Q
               "derivative matcher; two-pass Bowring latitude error: contraction per pass, explicit bound; the whole off-surface triple "
               "on every table ellipsoid for -10 km <= h <= 20000 km in one statement (latitude within 1e-5 m of arc, longitude exact, "
               "height within 2*(N+h)*|sin dB| < 2e-5 m: explicit Lipschitz estimate of both height formulas); pole and longitude "
-              "hypotheses discharged for every table row and h >= -10 km. Models tied to the C++ by a "
-              "translator (ellipsoid table) and byte-exact / 1e-12 correspondence; round-trip and format oracles on the implementation.")
-LEVEL_NOTE = ("Theorems are in exact arithmetic (IEEE rounding, libm, strtod not modelled); blh2xyz, Bowring, the height formulas, "
-              "gon2deg/deg2gon and bearing are hand models tied by correspondence only (the translator regenerates the ellipsoid table "
-              "and five patch-presence flags). "
+              "hypotheses discharged for every table row and h >= -10 km. Models tied to the C++ by "
+              "translators (ellipsoid table; every member function of class Ellipsoid statement by statement, equality with the "
+              "model proved) and byte-exact / 1e-12 correspondence; round-trip and format oracles on the implementation.")
+LEVEL_NOTE = ("Theorems are in exact arithmetic (IEEE rounding, libm, strtod not modelled); the ellipsoid model (setters, W N M V F, "
+              "blh2xyz, xyz2blh with both Bowring passes and both height formulas) is proved EQUAL to definitions regenerated from "
+              "ellipsoid.{h,cpp} on every run (C18_ellipsoid_source_tie); gon2deg/deg2gon and bearing are hand models tied by "
+              "correspondence (the translator regenerates the ellipsoid table and six patch-presence flags). "
               "Defects found and repaired by fix: commits (the models carry both variants, selected by the translator): "
               "seconds printed as 60.00 (F14), -0.0 printed as -0.00, NaN from xyz2blh at the poles, IsInteger accepting a lone "
               "sign. Known finding C18-F3: dms2rad misreads decimal ddd.mmss literals by 40 arc seconds (binary rounding before "
